@@ -172,6 +172,9 @@ type Pending struct {
 // message instead (reorder) when Reorder is set, and each message gets a delay
 // from DelayAlphabet at Add time when the caller asks for it.
 type Feeder struct {
+	// Burst: the environment offers up to Burst further ready messages in the same cycle (a banked memory or a network that
+	// answers more than once per cycle); the component's incoming buffer decides how many of them it takes
+	Burst int
 	W             *World
 	Port          sim.Port
 	Tag           string
@@ -198,7 +201,7 @@ func (f *Feeder) Add(m sim.Msg, choose bool) {
 // Step delivers up to max ready messages. Returns true while anything is pending.
 func (f *Feeder) Step(max int) bool {
 	w := f.W
-	for i := 0; i < max; i++ {
+	for i := 0; i < max+f.Burst; i++ {
 		var ready []int
 		for j, p := range f.Q {
 			if p.Ready <= w.Cycle() {
@@ -211,7 +214,9 @@ func (f *Feeder) Step(max int) bool {
 			break
 		}
 		pick := 0
-		if f.Reorder && len(ready) > 1 && w.X.CanDeviate() {
+		// burst deliveries (i >= max) take the first ready message without a choice point: whether they happen at all is
+		// decided by the component's port (a one-entry incoming buffer refuses them), so they cost nothing where they cannot occur
+		if i < max && f.Reorder && len(ready) > 1 && w.X.CanDeviate() {
 			pick = w.X.Choose(len(ready), "order:"+f.Tag)
 		}
 		j := ready[pick]
